@@ -86,6 +86,10 @@ def run(tier, seed):
         jobs.append(("valid", FIXED_COMPOUND, os_, "FXC"))
     for os_ in [(), ("-fwide-types",), ("-no-gen-PER",)]:
         jobs.append(("valid", FIXED_QUADS, os_, "FXC"))
+    # a collection whose element is kept in an unsigned long (the element needs a descriptor of its own); two of them in one
+    # module share the anonymous name 'Member' and need -fcompound-names
+    jobs.append(("valid", FIXED_UNSIGNED_OF, (), "FXC"))
+    jobs.append(("valid", FIXED_UNSIGNED_OF.replace("END", "Uh ::= SEQUENCE { counters SET OF INTEGER (256..MAX), n INTEGER } END"), ("-fcompound-names",), "FXC"))
     for nm, ptext in FIXED_PARAM:
         for os_ in [(), ("-fcompound-names",), ("-fwide-types", "-findirect-choice")]:
             jobs.append(("valid", ptext, os_, "PAR:" + nm))
@@ -323,6 +327,8 @@ END
 # with quadruples (a module of its own: asn1c's lexer loses track of later numbers after a quadruple)
 FIXED_QUADS = ("FQ DEFINITIONS ::= BEGIN\nBm1 ::= BMPString (FROM (\"A\"..\"Z\" | {0,0,0,255}))\nBm2 ::= BMPString (FROM (\"A\"..\"Z\" | {0,0,1,0}))\n"
                "Bm3 ::= BMPString (FROM (\"A\"..\"Z\" | {0,0,1,1}))\nUm ::= UniversalString (FROM (\"a\"..\"c\" | {0,0,1,0}))\nEND\n")
+
+FIXED_UNSIGNED_OF = "FU DEFINITIONS ::= BEGIN Uo ::= SEQUENCE OF INTEGER (0..4294967295) Un ::= INTEGER (0..MAX) END"
 
 FIXED_COMPOUND = """FXC DEFINITIONS AUTOMATIC TAGS ::= BEGIN
 
